@@ -3,6 +3,7 @@ Module implementing the TEBD time-evolution for TTNS.
 """
 from __future__ import annotations
 from typing import List, Union, Dict
+from uuid import uuid1
 
 from ..ttns import TreeTensorNetworkState
 from .ttn_time_evolution import TTNTimeEvolution, TTNTimeEvolutionConfig
@@ -111,10 +112,11 @@ class TEBD(TTNTimeEvolution):
 
         u_legs, v_legs = self.state.legs_before_combination(identifiers[0],
                                                             identifiers[1])
+        contr_id = str(uuid1())
         self.state.contract_nodes(identifiers[0], identifiers[1],
-                           new_identifier="contr")
-        self.state.absorb_into_open_legs("contr", operator)
-        self.state.split_node_svd("contr", u_legs, v_legs,
+                           new_identifier=contr_id)
+        self.state.absorb_into_open_legs(contr_id, operator)
+        self.state.split_node_svd(contr_id, u_legs, v_legs,
                                   u_identifier=identifiers[0],
                                   v_identifier=identifiers[1],
                                   svd_params=self.svd_parameters)
